@@ -125,6 +125,7 @@ func runC13Case(tier string, seed uint64, idx int, keepDir string) *CaseResult {
 	p.Measurement = 0
 	p.NoneValues = 0
 	p.Years = [2]int{2, 3}
+	p.NoMidYearStart = kind == "weather_per_year_vs_multi_year_csv" // a per-year file holds a whole year
 	cropPair := kind == "crop_classic_vs_yaml" || kind == "crop_classic_vs_converter_yaml"
 	var cropFile [2]string
 	if cropPair {
